@@ -121,6 +121,10 @@ def evaluate(case, obs):
            for lg in case["logs"] for b in lg["batches"]):
         out.label("compaction_gaps")
     out.label("mode_" + case["cfg"].get("mode", "assign"))
+    if any(a.extra.get("redirected") for a in c.arrivals if a.key == 1):
+        out.label("leader_named_a_read_replica")
+    if any(a.extra.get("follower_oor") for a in c.arrivals if a.key == 1):
+        out.label("follower_answered_out_of_range_for_offset_the_leader_has")
     if getattr(obs, "deser_failures", None):
         out.label("deserializer_raised_once_for_a_record")
     out.info = {"delivered": {k: len(v) for k, v in delivered.items()}, "events": len(obs.events),
@@ -195,6 +199,14 @@ def strategy():
             # every idle long-poll would "time out" and tear its connection down (with the metadata request queued
             # behind it): not a configuration a Kafka client is meant to run with (the Java client rejects it)
             cfg["request_timeout_ms"] = 1000
+        if nodes > 1 and draw(st.integers(0, 3)) == 0:
+            # follower reads (KIP-392): the consumer names its rack, the leader of some partitions points it at another
+            # broker, whose own log start may be ahead of the leader's
+            cfg["client_rack"] = "rack-a"
+            for lg in logs:
+                if draw(st.integers(0, 2)) > 0:
+                    lg["follower"] = {"node": draw(st.integers(0, nodes - 1)),
+                                      "start_frac": draw(st.sampled_from([0.0, 0.0, 0.3, 0.6, 1.0]))}
         idxs = st.lists(st.integers(0, nparts - 1), max_size=nparts)
         tasks = []
         for ti in range(draw(st.integers(1, 3))):
